@@ -22,12 +22,11 @@ CLAIMED = {
                      "delivers exactly the events of its list definition, and chains of any length behave as the composition of the definitions. "
                      "The handler table is tied to the crate by running impl, Seq model and Loc.chain on the same inputs; the spec oracle is applied to every implementation observation."),
     "C10": dict(engine="coq-seq", design="DESIGN.md 6 C10",
-                technique="machine-checked proof in Coq (refinement of the Subject, ReplaySubject and BehaviorSubject automata to the reference machine by simulation, induction over call histories) + three-way correspondence impl = Seq = SubjK",
+                technique="machine-checked proof in Coq (refinement of the Subject, ReplaySubject, BehaviorSubject and AsyncSubject automata to the reference machine by simulation, induction over call histories) + three-way correspondence impl = Seq = SubjK",
                 text="Theorem C10_subject_refines_reference: for every call history (unbounded observers, values, calls) the Subject automaton (serial-keyed map, "
                      "snapshot/clear/call, self-removing teardown) gives every observer exactly the events issued while it was registered and holds exactly the registered observers; "
                      "C10_replay_refines_reference: the same for ReplaySubject (forwarding observer registered in the inner Subject, replay gate, sbsc cell) for every history that does not use the subject after its own terminal: a new subscriber is handed the whole "
-                     "history in order, then the stored terminal or the live stream, each item once; C10_behavior_refines_reference: the same for BehaviorSubject and every initial value (the latest value or the stored terminal first); C10_replay_history_complete / C10_behavior_latest: the history cells always hold what was pushed. Partial: the hand-over of AsyncSubject to a late "
-                     "joiner is proved at the level of the history cells and otherwise decided by the reference-machine oracle applied to the implementation on all short histories."),
+                     "history in order, then the stored terminal or the live stream, each item once; C10_behavior_refines_reference: the same for BehaviorSubject and every initial value (the latest value or the stored terminal first); C10_async_refines_reference: AsyncSubject (take_last(1) over the inner Subject) for every history, use after the terminal included; C10_replay_history_complete / C10_behavior_latest: the history cells always hold what was pushed. All four subject kinds are thereby proved to refine the reference machine on plain histories (observers attached directly, each handle subscribing once); observers attached through operators, shared Observable values and subscriptions made inside callbacks are decided by the reference-machine oracle and the correspondence on the implementation."),
     "C03": dict(engine="coq-seq", design="DESIGN.md 6 C03",
                 technique="machine-checked proof in Coq (per-operator induction over arbitrary interleavings of the sources' events, with the StreamController bookkeeping invariant) + three-way correspondence impl = Seq = MLoc and the specification oracle on every implementation observation",
                 text="Theorems C03_merge / C03_zip / C03_amb (any number of sources) and C03_take_until / C03_skip_until / C03_sample: for EVERY sequential interleaving of the sources' events (unbounded, ill-formed sources included) "
